@@ -191,6 +191,7 @@ let run (input : string) (obs : string) : string * string =
         OpListGRPC (q, size, tok), (fun s -> s), false, (match q with Some pq -> Some (query_from_data_provider pq) | None -> None)
       | x -> failwith ("STORE: unknown op " ^ x) in
     let plan = if state.digest then plan_for state.names nid state.db op else Sql.no_faults in
+    let db0 = state.db in
     let (db', resp) = Api.step state.names nid plan state.db op in
     state.db <- db';
     let code = int_of_nat resp.status in
@@ -209,8 +210,13 @@ let run (input : string) (obs : string) : string * string =
           let d = String.concat " " rest in
           let prev = state.last_dump in
           state.last_dump <- d;
+          (* all or nothing: the tables are either exactly as before, or exactly as after the WHOLE request *)
+          let (dbfull, _) = Api.step state.names nid Sql.no_faults db0 op in
+          let full = (match words (f_dump_digest dbfull) with "X" :: r -> String.concat " " r | r -> String.concat " " r) in
+          let ok2xx = icode >= 200 && icode < 300 in
           if icode = 0 then "fail:handler-panicked"
-          else if (icode < 200 || icode >= 300) && prev <> "" && prev <> d then "fail:failed-request-changed-stored-state"
+          else if (not ok2xx) && prev <> "" && prev <> d then "fail:failed-request-changed-stored-state"
+          else if ok2xx && d <> full then "fail:request-answered-success-but-only-part-of-it-is-stored"
           else "pass"
         | _ -> "fail:unparsable-observation"
       end else
